@@ -219,6 +219,12 @@ func c11Scenarios(r *verdict.Run, race bool) {
 			}
 			all = append(all, scn{kind: "h:newest-waiter-leaves", form: f, consumer: []string{leave}})
 		}
+		for _, fl := range [][]string{{"FLUSHDB"}, {"FLUSHALL"}, {"MULTI+FLUSHDB"}, {"SELECT1+FLUSHALL"}} {
+			all = append(all, scn{kind: "i:flush-while-blocked", form: f, consumer: fl})
+		}
+		for _, leave := range []string{"unblock+unblock", "timeout+close", "close+unblock", "kill+timeout"} {
+			all = append(all, scn{kind: "j:middle-then-last-waiter-leave", form: f, consumer: []string{leave}})
+		}
 		if f.multi {
 			all = append(all, scn{kind: "f:multi-key-woken-once", form: f, multi: true})
 			all = append(all, scn{kind: "d:stolen-after-wake", form: f, multi: true, consumer: consumers[0]})
@@ -550,6 +556,117 @@ func c11Scenarios(r *verdict.Run, race bool) {
 				ok = s.expectServed(wC, "el-2", "sched/lost-wakeup/waiter-orphaned-after-newest-left/"+sc.form.name)
 				note(wC)
 			}
+		case 'i':
+			// the database is flushed while a client is blocked on q (and a second client blocks after the flush): pushes
+			// afterwards must serve them in the order in which they started to wait
+			wB, err := newWaiter(e)
+			if err != nil {
+				return
+			}
+			defer wB.cn.Close()
+			from := c.EventCount()
+			c.Ctl("watch blk:before-wait")
+			w1.issue(cmd, 30*time.Second)
+			if _, _, f := c.WaitEvent(from, func(ev host.Event) bool { return ev.Kind == "hit" && ev.Point == "blk:before-wait" && ev.ID == w1.id }, 5*time.Second); !f {
+				r.Inconclusive("waiter did not reach blk:before-wait")
+				return
+			}
+			switch sc.consumer[0] {
+			case "FLUSHDB", "FLUSHALL":
+				s.do(sc.consumer[0])
+			case "MULTI+FLUSHDB":
+				s.do("MULTI")
+				s.do("FLUSHDB")
+				s.do("EXEC")
+			case "SELECT1+FLUSHALL":
+				s.do("SELECT", "1")
+				s.do("FLUSHALL")
+				s.do("SELECT", "0")
+			}
+			from = c.EventCount()
+			wB.issue(cmd, 30*time.Second)
+			if _, _, f := c.WaitEvent(from, func(ev host.Event) bool { return ev.Kind == "hit" && ev.Point == "blk:before-wait" && ev.ID == wB.id }, 5*time.Second); !f {
+				r.Inconclusive("second waiter did not reach blk:before-wait")
+				return
+			}
+			push("q", "el-1")
+			ok = s.expectServed(w1, "el-1", "sched/lost-wakeup/blocked-across-flush/"+sc.form.name)
+			note(w1)
+			if ok {
+				ok = s.expectStillBlocked(wB, "sched/fifo/newcomer-served-before-waiter-from-before-the-flush/"+sc.form.name)
+			}
+			if ok {
+				push("q", "el-2")
+				ok = s.expectServed(wB, "el-2", "sched/lost-wakeup/waiter-after-flush-not-served/"+sc.form.name)
+				note(wB)
+			}
+		case 'j':
+			// A, B, C block in this order; B (middle of the queue) leaves, then C (the one behind it) leaves; A is still
+			// waiting and must get the next element; a newcomer D the one after
+			ws := []*waiter{w1}
+			for k := 0; k < 3; k++ {
+				w, err := newWaiter(e)
+				if err != nil {
+					return
+				}
+				defer w.cn.Close()
+				ws = append(ws, w)
+			}
+			wB, wC, wD := ws[1], ws[2], ws[3]
+			waitBlocked := func(w *waiter, cmd []string) bool {
+				from := c.EventCount()
+				c.Ctl("watch blk:before-wait")
+				w.issue(cmd, 30*time.Second)
+				s.logf("client %d: %s", w.id, cmdString(cmd))
+				_, _, f := c.WaitEvent(from, func(ev host.Event) bool { return ev.Kind == "hit" && ev.Point == "blk:before-wait" && ev.ID == w.id }, 5*time.Second)
+				return f
+			}
+			how := strings.Split(sc.consumer[0], "+")
+			cmdFor := func(h string) []string {
+				if h == "timeout" {
+					return sc.form.args(keys, "0.3")
+				}
+				return cmd
+			}
+			if !waitBlocked(w1, cmd) || !waitBlocked(wB, cmdFor(how[0])) || !waitBlocked(wC, cmdFor(how[1])) {
+				r.Inconclusive("waiters did not reach blk:before-wait")
+				return
+			}
+			leave := func(w *waiter, h string) {
+				switch h {
+				case "unblock":
+					s.do("CLIENT", "UNBLOCK", strconv.FormatInt(w.id, 10))
+					w.finished(3 * time.Second)
+				case "kill":
+					s.do("CLIENT", "KILL", "ID", strconv.FormatInt(w.id, 10))
+					time.Sleep(150 * time.Millisecond)
+				case "close":
+					w.cn.Close()
+					time.Sleep(150 * time.Millisecond)
+				case "timeout":
+					w.finished(3 * time.Second)
+				}
+				s.logf("client %d left by %s", w.id, h)
+			}
+			if how[0] == "timeout" && how[1] != "timeout" {
+				leave(wB, how[0]) // B's short timeout runs out first
+				leave(wC, how[1])
+			} else {
+				leave(wB, how[0])
+				leave(wC, how[1])
+			}
+			push("q", "el-1")
+			ok = s.expectServed(w1, "el-1", "sched/lost-wakeup/head-waiter-dropped-when-two-behind-it-left/"+sc.form.name)
+			note(w1)
+			if ok {
+				if !waitBlocked(wD, cmd) {
+					r.Inconclusive("newcomer did not reach blk:before-wait")
+					return
+				}
+				push("q", "el-2")
+				ok = s.expectServed(wD, "el-2", "sched/lost-wakeup/newcomer-not-served-after-queue-repair/"+sc.form.name)
+				note(wD)
+			}
 		case 'f':
 			// blocked on [a, q]; served through q; a later push to a must stay in a
 			from := c.EventCount()
@@ -568,7 +685,7 @@ func c11Scenarios(r *verdict.Run, race bool) {
 				ok = false
 			}
 		}
-		if sc.kind[0] == 'a' || sc.kind[0] == 'b' || sc.kind[0] == 'c' || sc.kind[0] == 'd' || sc.kind[0] == 'f' || sc.kind[0] == 'g' || sc.kind[0] == 'h' || sc.kind == "e:fifo-two-waiters" {
+		if sc.kind[0] == 'a' || sc.kind[0] == 'b' || sc.kind[0] == 'c' || sc.kind[0] == 'd' || sc.kind[0] == 'f' || sc.kind[0] == 'g' || sc.kind[0] == 'h' || sc.kind[0] == 'i' || sc.kind[0] == 'j' || sc.kind == "e:fifo-two-waiters" {
 			if sc.form.name != "BRPOP" && sc.form.name != "BRPOPLPUSH" || true {
 				s.conserve(pushed, delivered)
 			}
